@@ -93,6 +93,12 @@ func genC05(g *Gen, n int) {
 	for _, fs := range c05NearMissLists(g.Rand, thorough) {
 		c05EmitCreate(g, "example.com/m", "v1.0.0", fs, "near-miss-name")
 	}
+	// The fixed families above (with their derived and mirrored ops) are about 1700 of the quick tier's 2500 ops
+	// (random lists: about 200 of 920): the random stream gets at least n/2 ops of its own, however large the
+	// sweeps are.
+	if n < g.st.Ops+n/2 {
+		n = g.st.Ops + n/2
+	}
 	for g.st.Ops < n {
 		fs := c05GenList(g)
 		mp, mv := zipuPickMod(g.Rand, 8)
